@@ -170,6 +170,39 @@ def run_harnesses(set_name, tier='quick', prop=None):
                     item['reason'] = 'no verdict (timeout/oom)'
                     item['log_tail'] = '\n'.join(r['log'])[-1500:]
             out_res.append(item)
+        # Kani gives a counterexample: fetch the concrete values of each refuted harness (printed as a unit test by
+        # `--concrete-playback=print`; not re-executed here: most harnesses stand on stubs, which a plain test cannot use)
+        for item in out_res:
+            if item.get('status') == 'failure' and not os.environ.get('VERIF_NO_PLAYBACK'):
+                try:
+                    pc = ['cargo', 'kani', '-p', 'gamedig', '-Z', 'stubbing', '-Z', 'function-contracts', '-Z', 'concrete-playback',
+                          '--concrete-playback=print', '--harness', item['name']]
+                    pp = subprocess.Popen(pc, cwd=d, env=env, stdout=subprocess.PIPE, stderr=subprocess.STDOUT, text=True, start_new_session=True)
+                    try:
+                        so, _ = pp.communicate(timeout=KS.HARNESSES[item['name']].get('timeout', 600))
+                    except subprocess.TimeoutExpired:
+                        import signal
+                        os.killpg(pp.pid, signal.SIGKILL)
+                        so, _ = pp.communicate()
+                    mt = re.search(r'Concrete playback unit test for.*?```\n(.*?)```', so or '', re.S)
+                    if mt:
+                        item['counterexample'] = mt.group(1)[:4000]
+                    if mt and KS.HARNESSES[item['name']].get('replayable'):
+                        # the harness stands on no behaviour-changing stub: let Kani add the playback test to the scratch copy and
+                        # RUN it natively on the real code (cargo kani playback); a failing test is the counterexample reproduced
+                        pc2 = pc[:]
+                        pc2[pc2.index('--concrete-playback=print')] = '--concrete-playback=inplace'
+                        subprocess.run(pc2, cwd=d, env=env, capture_output=True, text=True, timeout=KS.HARNESSES[item['name']].get('timeout', 600), start_new_session=True)
+                        pb = subprocess.run(['cargo', 'kani', 'playback', '-p', 'gamedig', '-Z', 'concrete-playback', '--', 'kani_concrete_playback_' + item['name']],
+                                            cwd=d, env=env, capture_output=True, text=True, timeout=1500, start_new_session=True)
+                        outp = (pb.stdout or '') + (pb.stderr or '')
+                        ran = re.search(r'test result: (\w+)\. (\d+) passed; (\d+) failed', outp)
+                        pan = re.search(r"panicked at [^\n]*\n[^\n]*", outp)
+                        item['replayed'] = {'ran': bool(ran), 'failed_on_real_code': bool(ran and int(ran.group(3)) > 0),
+                                            'observed': (pan.group(0) if pan else '')[:600],
+                                            'cmd': 'cargo kani playback -p gamedig -Z concrete-playback -- kani_concrete_playback_' + item['name']}
+                except Exception as e:
+                    item['counterexample_error'] = repr(e)
         if compile_error and not parsed:
             return {'evidence': ev, 'harness_results': out_res, 'error': 'the scratch crate did not compile under kani: ' + out[-1500:],
                     'assumptions': []}
